@@ -58,8 +58,9 @@ pub struct Sys {
     pub storage: usize,
 }
 
-fn slot_view(rx: &RxS, slot: usize) -> Option<(CtxS, Vec<u8>)> {
-    rx.mem.frags[slot].as_ref().map(|(c, b)| (c.clone(), b[..(c.pdu_len as usize).min(b.len())].to_vec()))
+/// reassembly data kept for the aliasing class of `id` (layout independent)
+fn slot_view(rx: &RxS, id: u8) -> Option<(CtxS, Vec<u8>)> {
+    rx.mem.ctx_in_class(id).map(|(c, b)| (c.clone(), b[..(c.pdu_len as usize).min(b.len())].to_vec()))
 }
 
 impl Sys {
@@ -208,15 +209,14 @@ impl System for Sys {
             if Some(j) == who || Some(j) == evicted {
                 continue;
             }
-            let slot = t.id as usize % self.slots;
-            if slot_view(&s.rx, slot) != slot_view(&rx2, slot) {
+            if slot_view(&s.rx, t.id) != slot_view(&rx2, t.id) {
                 let what = match op {
                     Op::Stray(k) => format!("stray packet {} ({})", self.strays[*k].name, out.class()),
                     Op::Advance(i) => format!("packet #{} of train {}", s.idx[*i], i),
                     Op::Restart(i) => format!("restart of train {}", i),
                 };
                 let alias = if let Op::Stray(k) = op { if self.strays[*k].name.contains("alias") { "aliasing-id" } else { "other" } } else { "train" };
-                viols.push((format!("C07|isolation|{}|{}|{}", opn, out.class(), alias), format!("{} altered the reassembly in progress of train {} (frag id {}): before {:?}, after {:?}", what, j, t.id, slot_view(&s.rx, slot), slot_view(&rx2, slot))));
+                viols.push((format!("C07|isolation|{}|{}|{}", opn, out.class(), alias), format!("{} altered the reassembly in progress of train {} (frag id {}): before {:?}, after {:?}", what, j, t.id, slot_view(&s.rx, t.id), slot_view(&rx2, t.id))));
             }
         }
         match op {
@@ -279,10 +279,10 @@ impl System for Sys {
                         }
                         // drop the foreign context again so the space stays finite: the owner of the
                         // slot is irrelevant for the other trains (isolation was checked above)
-                        let slot = self.trains[e].id as usize % self.slots;
-                        if let Some((c, b)) = rx2.mem.frags[slot].take() {
-                            if c.frag_id == self.trains[e].id {
-                                rx2.mem.frags[slot] = Some((c, b));
+                        let tid = self.trains[e].id;
+                        if let Some((c, b)) = rx2.mem.take_class(tid) {
+                            if c.frag_id == tid {
+                                rx2.mem.set_ctx(c, b);
                             } else {
                                 rx2.mem.free.push(vec![0u8; b.len()]);
                             }
